@@ -187,6 +187,14 @@ class PropertyRun:
                         self.undecided.append(f'kani unit {u.name}: build/tool error\n{info["build_error"][:3000]}')
                         continue
                     self.functions += [{'file': f.get('file'), 'item': f.get('item'), 'backend': 'kani', 'has_contract': f.get('contract', False)} for f in u.functions]
+                    # trusted base of the Kani route, scanned mechanically from the harness modules
+                    self.trusted.add('kani: tracing replaced by the no-op crate stubs/tracing (log macros assumed effect-free)')
+                    if u.patch_ttl_cache:
+                        self.trusted.add('kani: ttl_cache replaced by the Vec-backed stand-in stubs/ttl_cache (assumed contract on a dependency)')
+                    for a in u.appends:
+                        body = open(os.path.join(VERIF, 'contracts', 'kani', a['module'])).read()
+                        for m in re.finditer(r'kani::stub\(\s*([^,\s]+)\s*,\s*([^)\s]+)\s*\)', body):
+                            self.trusted.add(f'kani::stub: {m.group(1)} -> {m.group(2)} ({a["module"]})')
                     self.digest_kani(sc, u, hs)
             finally:
                 sc.remove()
